@@ -77,7 +77,7 @@ def parse_binary_expr(ordering, node):
             return OBDD(BDDNode(node.value), ordering)
 
         raise SyntaxError('expected a binary expression, got number ' +
-                          '{}'.format(node.n))
+                          '{}'.format(node.value))
 
     raise SyntaxError('expected a binary expression, got a ' +
                       '{}'.format(node.__class__))
